@@ -21,7 +21,7 @@ theorem rldecodeAux_fuel : âˆ€ (f1 f2 : Nat) (data : Bytes), data.length < f1 â†
     | nil => rfl
     | cons l rest =>
       simp only [List.length_cons] at h1 h2
-      simp only [rldecodeAux]
+      simp only [rldecodeAux_cons_lit]
       split
       Â· rfl
       Â· split
@@ -41,9 +41,9 @@ theorem nbitsAfter_pos (nb t : Nat) (h : 0 < nb) : 0 < nbitsAfter nb t := by
 
 theorem feed_nbits_pos (st : LzwSt) (c : Nat) (h : 0 < st.nbits) (st' : LzwSt) (x : Bytes)
     (hf : feed st c = .ok st' x) : 0 < st'.nbits := by
-  unfold feed at hf
+  rw [feed_lit] at hf
   repeat' (split at hf)
-  all_goals (try (simp only [feedGrow] at hf))
+  all_goals (try (simp only [feedGrow_lit] at hf))
   all_goals first
     | (injection hf with h1 h2; subst h1; first | exact h | exact nbitsAfter_pos _ _ h | decide)
     | cases hf
